@@ -185,6 +185,8 @@ def build(geom):
     for f in geom["interfaces"]:
         pts = g.Points(np.array(f["points"], float).reshape(-1, 3).copy())
         ori = g.Points(np.array(f["frames"], float).reshape(-1, 3, 3).copy())
+        if f.get("same_as") is not None:          # the very same Points objects as an earlier interface
+            pts, ori = interfaces[f["same_as"]].points, interfaces[f["same_as"]].orientations
         # the declared role of the interface (none / transmission / reflection against a material) does not enter the
         # geometry: it is drawn at random so that role-dependent shortcuts (e.g. in Interface.reverse) are exercised
         role = f.get("role")
@@ -676,6 +678,18 @@ for t in range(NRANDOM):
     gm = random_geometry(rng)
     if rng.random() < 0.15:
         gm["fortran"] = True
+    if t % 10 == 7 and len(gm["interfaces"]) in (3, 5):      # (odd: two consecutive interfaces are never the same set)
+        # a mirror-image (pulse-echo like) path: interface k and interface nif-1-k are the SAME point set (the same Points
+        # object in arim) with the same frames, the velocities read the same both ways; the rays are arbitrary index tables
+        ifs_ = gm["interfaces"]
+        nif_ = len(ifs_)
+        for k_ in range(nif_ // 2):
+            ifs_[nif_ - 1 - k_] = dict(ifs_[k_], inc=ifs_[nif_ - 1 - k_]["inc"], out=ifs_[nif_ - 1 - k_]["out"], same_as=k_)
+        gm["vels"] = [gm["vels"][min(k_, nif_ - 2 - k_)] for k_ in range(nif_ - 1)]
+        n_, m_ = len(ifs_[0]["points"]), len(ifs_[-1]["points"])
+        gm["interior"] = np.stack([rng.integers(0, len(ifs_[k_]["points"]), (n_, m_)) for k_ in range(1, nif_ - 1)]) \
+            if nif_ > 2 else np.zeros((0, n_, m_), int)
+        gm["family"] = "mirror-image"
     batch.append(gm)
     if len(batch) == 200:
         run_batch(batch)
